@@ -49,15 +49,20 @@ def spec_of(c):
 
 def describe(c):
     def g(ns):
-        return "[" + ", ".join("%s%s@%d" % (n["out"], ":" + n["class"] if n.get("class") else "", n["delay"]) for n in ns) + "]"
+        return "[" + ", ".join("%s%s%s@%d" % ("ctx-ignoring " if n.get("deaf") else "", n["out"], ":" + n["class"] if n.get("class") else "", n["delay"]) for n in ns) + "]"
     s = "%s primaries=%s fallbacks=%s" % (c["style"], g(c["prim"]), g(c["fb"]))
     if c.get("cancel"):
         s += " cancel@%d%s" % (c["cancel"]["at"], "(deadline)" if c["cancel"]["deadline"] else "")
-    return s + " -> observed %s at %s, primaries %s, fallbacks %s" % (c["res"], c["time"], c["sp"], c["sf"])
+    s += " -> observed %s at %s, primaries %s, fallbacks %s" % (c["res"], c["time"], c["sp"], c["sf"])
+    if any(c["bodies"]):
+        s += ", request bodies read by the nodes %s" % c["bodies"]
+    return s
 
 
 def key_of(c):
     """Stable key of a monitor violation, by the clause of the property that is broken."""
+    if any(b.startswith("bad:") for b in c["bodies"]):
+        return "proxy-body-not-delivered"
     succ = [n for n in c["prim"] if n["out"] == "ok"]
     if succ and not c.get("cancel"):
         if not c["res"].startswith("(ROk (P"):
@@ -78,7 +83,7 @@ def key_of(c):
 def main():
     R = vp.Result("C19")
     R.assumptions = [
-        "node calls honour cancellation of their context (a call that ignores it is outside the property; the model's Hang returns when cancelled)",
+        "node calls may ignore cancellation of their context (model: deaf); the call returns not later than the caller's cancellation whenever some awaited node honours its context; when ONLY context-ignoring calls are awaited the code notices the cancellation with the next result (theorem C19_cancel_waits_when_only_deaf_awaited) - the monitor is silent there",
         "latency is judged in virtual time (testing/synctest): 'does not wait' = the instant of return equals the latency of the fastest successful primary; goroutine scheduling cost of the real runtime is not measured",
         "the HTTP stack (go-eth2-client, lazy/httpAdapter wrappers) is not exercised; errors are constructed values of the types the classification functions inspect",
         "mixed failures (some primaries fail with an unavailability error, some with another error): the code decides on the LAST completing failure; the property text does not determine this case, so the monitor constrains only the unambiguous cases (all / none unavailable) and the theorem C19_fallback_mixed_depends_on_order states what the code does",
@@ -96,7 +101,7 @@ def main():
     data = json.load(open(os.path.join(od, "multi_cases.json")))
     cs = data["cases"]
     for c in cs:
-        for k in ("prim", "fb", "sp", "sf"):
+        for k in ("prim", "fb", "sp", "sf", "bodies"):
             c[k] = c.get(k) or []
     byid = {c["id"]: c for c in cs}
     R.coverage["evaluations"] = len(cs)
@@ -105,7 +110,8 @@ def main():
                           "kinds: corpus, exhaustive (every outcome vector over {success, timeout, syncing, gateway, other error, hang[, rejected answer]} and every completion order: "
                           "<= 2 primaries x <= 1 fallback at quick (full product, 3 styles); <= 3 x <= 2 at thorough: full product for Plain and Submit, for Pred the fallback group is fully enumerated whenever no primary succeeds or hangs and reduced to 4 groups otherwise), "
                           "wide (9 and 12 nodes in a group, a success behind 8 or 11 hung / slow nodes: more nodes than forkjoin's default worker count), cancel (a cancellation or deadline in every gap of the run's timeline, and an already cancelled context), random (up to 6 primaries, 4 fallbacks), ties (equal latencies); "
-                          "styles: Plain = SlotsPerEpoch, Pred = NodeSyncing (success predicate), Submit = SubmitAttestations; "
+                          "deaf (node calls that ignore cancellation and return after an hour: next to a quick success, in the fallback round, next to an ordinary in-flight call when the caller cancels or its deadline passes; every 2-primary vector with every choice of context-ignoring nodes x cancellation gaps), "
+                          "styles: Plain = SlotsPerEpoch, Pred = NodeSyncing (success predicate), Submit = SubmitAttestations, Proxy = multi.Proxy with a POST body (each node reads the body it is handed, in completion order; a node that does not get the caller's body answers 400); "
                           "non-trivial = at least 2 primaries and the result is a fallback's answer, a node's error, or a primary's answer although another primary failed or hangs; distinct by the whole label")
     R.coverage["input_distribution"] = {
         "kinds": dict(collections.Counter(c["kind"] for c in cs)),
@@ -116,6 +122,8 @@ def main():
         "primaries": dict(collections.Counter(len(c["prim"]) for c in cs)),
         "fallbacks": dict(collections.Counter(len(c["fb"]) for c in cs)),
         "with_cancellation": sum(1 for c in cs if c.get("cancel")),
+        "with_context_ignoring_node": sum(1 for c in cs if any(n.get("deaf") for n in c["prim"] + c["fb"])),
+        "proxy_bodies_read": sum(1 for c in cs for b in c["bodies"] if b),
         "fallbacks_called": sum(1 for c in cs if any(s != "NotCalled" for s in c["sf"])),
         "classification_rows": len(data.get("classification") or []),
     }
@@ -146,6 +154,7 @@ def main():
     with concurrent.futures.ThreadPoolExecutor(max_workers=min(8, vp.NPROC)) as ex:
         results = list(ex.map(ev, enumerate(shards)))
     nmon = nrej = 0
+    reported = set()
     for i, (rc, out) in results:
         if rc != 0:
             R.broke("correspondence:cases_C19_%d does not compile" % i, out[-3000:])
@@ -154,12 +163,17 @@ def main():
             c = byid[cid]
             if code == 1:
                 nmon += 1
+                reported.add(cid)
                 if nmon <= 20:
                     R.violation(key_of(c), "observed call violates the C19 monitor: " + describe(c), spec_of(c))
             else:
                 nrej += 1
                 if nrej <= 20:
                     R.broke("correspondence:Multi model does not reproduce observed call %d" % cid, describe(c) + "\n" + c["coq"])
+    # a node that was handed the proxied request must be able to read the body the caller sent
+    for c in cs:
+        if any(b.startswith("bad:") for b in c["bodies"]) and c["id"] not in reported:
+            R.violation("proxy-body-not-delivered", "a node did not receive the request body: " + describe(c), spec_of(c))
     # harness-level inconsistencies (an answer that is nobody's, a node called twice, a blocked call
     # that does not return on cancellation ...), after the monitor's findings
     for c in cs:
